@@ -37,8 +37,76 @@ def _merge_counts(dst, src):
             dst[k] = dst.get(k, 0) + v
 
 
+def _resolve(dotted):
+    modname, _, qual = dotted.partition(':')
+    obj = importlib.import_module(modname)
+    for part in qual.split('.'):
+        obj = getattr(obj, part)
+    obj = getattr(obj, '__wrapped__', obj)
+    obj = getattr(obj, '__func__', obj)
+    want = qual.split('.')[-1]
+    for _ in range(3):
+        # decorators without functools.wraps (plumpy's super_check): the real function sits in the closure
+        if getattr(obj, '__code__', None) is not None and obj.__code__.co_name != want and obj.__closure__:
+            inner = [c.cell_contents for c in obj.__closure__ if callable(getattr(c, 'cell_contents', None)) and getattr(c.cell_contents, '__name__', None) == want]
+            if inner:
+                obj = inner[0]
+                continue
+        break
+    code = getattr(obj, '__code__', None)
+    if code is None and isinstance(obj, property):
+        code = obj.fget.__code__
+    return code
+
+
+class Reach:
+    """sys.monitoring PY_START counters on the functions a property is anchored in (evidence that the mechanism was entered)."""
+
+    def __init__(self, anchors):
+        self.counts = {}
+        self.by_code = {}
+        self.tool = None
+        mon = getattr(sys, 'monitoring', None)
+        if mon is None or not anchors:
+            return
+        for name in anchors:
+            try:
+                code = _resolve(name)
+            except Exception:  # noqa: BLE001
+                code = None
+            if code is None:
+                self.counts[name + ' (unresolved)'] = 0
+                continue
+            self.by_code[code] = name
+            self.counts[name] = 0
+        try:
+            mon.use_tool_id(mon.PROFILER_ID, 'pv-reach')
+        except ValueError:
+            return
+        self.tool = mon.PROFILER_ID
+
+        def on_start(code, offset):
+            name = self.by_code.get(code)
+            if name is not None:
+                self.counts[name] += 1
+
+        mon.register_callback(self.tool, mon.events.PY_START, on_start)
+        for code in self.by_code:
+            mon.set_local_events(self.tool, code, mon.events.PY_START)
+
+    def close(self):
+        if self.tool is not None:
+            mon = sys.monitoring
+            for code in self.by_code:
+                mon.set_local_events(self.tool, code, 0)
+            mon.register_callback(self.tool, mon.events.PY_START, None)
+            mon.free_tool_id(self.tool)
+            self.tool = None
+
+
 def run_cases_local(mod, cases, indices, out, tier='quick'):
     """Worker body: run cases, aggregate, stream violations."""
+    reach = Reach(getattr(mod, 'ANCHORS', ()))
     obs = {}
     keys = set()
     nontrivial_keys = set()
@@ -74,6 +142,9 @@ def run_cases_local(mod, cases, indices, out, tier='quick'):
             viol_seen[v['sig']] = cnt + 1
             if cnt < 3:
                 out.write(json.dumps({'t': 'viol', 'v': v, 'case': case}, default=repr) + '\n')
+    reach.close()
+    if reach.counts:
+        obs['reach'] = dict(reach.counts)
     out.write(json.dumps({'t': 'summary', 'n': n, 'obs': obs, 'keys': sorted(keys), 'nontrivial': sorted(nontrivial_keys),
                           'inconclusive': inconc, 'samples': samples, 'viol_counts': viol_seen,
                           'wall': time.time() - t0}, default=repr) + '\n')
@@ -232,6 +303,9 @@ def check(mod, prop_id, tier, seed, nworkers, write_evidence=True):
     for name in getattr(mod, 'REQUIRED', ()):
         if _lookup(total['obs'], name) <= 0:
             reasons.append('deciding observation %r never made' % name)
+    for name, count in total['obs'].get('reach', {}).items():
+        if count <= 0:
+            reasons.append('anchored function %s never entered' % name)
     if len(total['nontrivial']) < 2:
         reasons.append('fewer than 2 distinct non-trivial cases')
     conclusive_n = total['n'] - sum(total['inconclusive'].values())
